@@ -159,3 +159,18 @@ Definition publisher_reads_through_link (s : st) (cwd base name : str) : bool :=
                   end
   | None => false
   end.
+
+(* ---- an operating-system operation of an UPLOAD fails (errno) instead of being performed ----
+   a failing f.write() raises inside _got_data, which reaches _got_error and hence remote_putfile's _err (that is the
+   BadBlock ending after the blocks written so far); every other operation failing raises out of the statement it is in:
+   run_fault (the handler of the publishing rename still removes the temporary) *)
+Definition upload_fault (k : nat) (s : st) (final : str) (blocks : list (list N)) (oc : outcome) : st :=
+  match nth_error (upload_ops final blocks oc) k with
+  | Some (Write _ _) => run s (upload_ops final (firstn (k - 2) blocks) BadBlock)
+  | _ => run_fault k s (upload_ops final blocks oc)
+  end.
+
+Definition upload_fault_views (s : st) (final : str) (blocks : list (list N)) (oc : outcome) : list (list N) :=
+  flat_map (fun k => let s' := upload_fault k s final blocks oc in
+                     [code_view (look s' final); kind_of (look s' (final ++ putfile_tmp_ext))])
+           (seq 0 (List.length (upload_ops final blocks oc))).
